@@ -2,7 +2,7 @@
    generated from the source (gen/Pool_gen.v). *)
 From Coq Require Import List Arith Bool Lia.
 Import ListNotations.
-From PV Require Import Model.Pool gen.Pool_gen.
+From PV Require Import Model.Pool gen.Pool_gen gen.PoolIds_gen.
 
 (* ------------------------------------------------------------------ list facts *)
 Lemma filter_len_le : forall (A : Type) (f : A -> bool) (l : list A), length (filter f l) <= length l.
@@ -156,7 +156,7 @@ Proof. intros I f Hf k; induction k as [|k IH]; intros p Hp; simpl; [exact Hp|].
 Lemma run_inv : forall (I : pool -> Prop) c ops,
   (forall p, I p -> I (iter c ops p)) ->
   (forall p d, I p -> I (kill d p)) ->
-  (forall p q, I p -> I (mkP (tracked p) (next p) q)) ->
+  (forall p q, I p -> I (mkP (tracked p) (next p) q (freed p))) ->
   forall evs p, I p -> I (run c ops p evs).
 Proof.
   intros I c ops Hi Hk Hq evs; induction evs as [|e evs IH]; intros p Hp; simpl; [exact Hp|].
@@ -550,4 +550,267 @@ Proof.
   - intros p n Hp; exact Hp.
   - unfold start. intros id Hin. rewrite spawn_n_tracked, ids_app in Hin. simpl in Hin.
     rewrite fresh_ids in Hin. apply in_seq in Hin. rewrite spawn_n_next. simpl. lia.
+Qed.
+
+(* ------------------------------------------------------------------ the id source of the spawn code
+   For IdFresh the loop with the id source made explicit (iterG/runG/beatsG) IS the loop above. *)
+Lemma spawn_nG_fresh : forall n p, spawn_nG IdFresh n p = spawn_n n p.
+Proof. induction n as [|n IH]; intros p; simpl; [reflexivity|]. apply IH. Qed.
+
+Lemma do_opG_fresh : forall c p o, do_opG IdFresh c p o = do_op c p o.
+Proof.
+  intros c p o; destruct o; simpl; try reflexivity.
+  - unfold spawn_toG, spawn_to. apply spawn_nG_fresh.
+  - unfold scale_upG, scale_up. rewrite !spawn_nG_fresh. reflexivity.
+  - unfold spawn_from_queueG, spawn_from_queue. rewrite !spawn_nG_fresh. reflexivity.
+Qed.
+
+Lemma iterG_fresh : forall c ops p, iterG IdFresh c ops p = iter c ops p.
+Proof.
+  intros c ops; unfold iterG, iter; induction ops as [|o ops IH]; intros p; simpl; [reflexivity|].
+  rewrite do_opG_fresh. apply IH.
+Qed.
+
+Lemma apply_evG_fresh : forall c ops p e, apply_evG IdFresh c ops p e = apply_ev c ops p e.
+Proof. intros c ops p e; destruct e; simpl; try reflexivity. apply iterG_fresh. Qed.
+
+Lemma runG_fresh : forall c ops evs p, runG IdFresh c ops p evs = run c ops p evs.
+Proof.
+  intros c ops evs; unfold runG, run; induction evs as [|e evs IH]; intros p; simpl; [reflexivity|].
+  rewrite apply_evG_fresh. apply IH.
+Qed.
+
+Lemma beatsG_fresh : forall c ops sel evs p, beatsG IdFresh c ops sel p evs = beats c ops sel p evs.
+Proof.
+  intros c ops sel evs; induction evs as [|e evs IH]; intros p; simpl; [reflexivity|].
+  rewrite apply_evG_fresh, IH. reflexivity.
+Qed.
+
+Lemma iterate_ext : forall f g, (forall p, f p = g p) -> forall k p, iterate k f p = iterate k g p.
+Proof. intros f g H k; induction k as [|k IH]; intros p; simpl; [reflexivity|]. rewrite IH. apply H. Qed.
+
+Lemma iterateG_fresh : forall c ops k p, iterate k (iterG IdFresh c ops) p = iterate k (iter c ops) p.
+Proof. intros c ops; apply iterate_ext. intros p; apply iterG_fresh. Qed.
+
+(* statements over the id-source-explicit loop *)
+Definition ppr_restored_forG (s : idsrc) (ops : list lop) : Prop :=
+  forall min_slots num_conf cpu evs k,
+    let c := ppr_cfg min_slots num_conf cpu in
+    let p := runG s c ops (start c) evs in
+    let p' := iterate (S k) (iterG s c ops) p in
+    no_dead p' = true /\ nlive p' = cap c /\ ntracked p' = cap c.
+
+Definition pr_restored_forG (s : idsrc) (ops : list lop) : Prop :=
+  forall min_slots cpu evs k,
+    let c := pr_cfg min_slots cpu in
+    let p := runG s c ops (start c) evs in
+    let p' := iterate (S k) (iterG s c ops) p in
+    no_dead p' = true /\ nlive p' <= cap c /\ (nlive p' = cap c \/ queue p' = 0).
+
+Definition mtr_restored_forG (s : idsrc) (ops : list lop) : Prop :=
+  forall min_p max_p cpu enf evs k,
+    let c := mtr_cfg min_p max_p cpu enf in
+    let p := runG s c ops (start c) evs in
+    let p' := iterate (S k) (iterG s c ops) p in
+    no_dead p' = true /\ mtr_demand c p' <= nlive p'.
+
+Definition mtr_refuted_forG (s : idsrc) (ops : list lop) : Prop :=
+  forall enf k,
+    let c := mtr_cfg 2 2 4 enf in
+    let p := runG s c ops (start c) [EKill [0; 1]; EEnqueue 2] in
+    let p' := iterate k (iterG s c ops) p in
+    nlive p' = 0 /\ no_dead p' = false /\ mtr_demand c p' = 2.
+
+Definition forgotten_forG (s : idsrc) (ops : list lop) : Prop :=
+  forall c p dead id evs, In id dead -> id < next p ->
+    ~ In id (ids (tracked (runG s c ops (iterG s c ops (kill dead p)) evs))).
+
+Definition dead_never_reported_forG (s : idsrc) (ops : list lop) (sel : hbsel) : Prop :=
+  forall c p dead id evs, In id dead -> id < next p ->
+    Forall (fun out => ~ In id out) (beatsG s c ops sel (kill dead p) evs).
+
+(* transfer: whatever holds of the loop with fresh ids holds of the explicit loop when the generated
+   id source IS IdFresh (the `s = IdFresh` argument is `eq_refl` only then) *)
+Lemma ppr_restored_transfer : forall s ops, s = IdFresh -> ppr_restored_for ops -> ppr_restored_forG s ops.
+Proof.
+  intros s ops Hs H a b cpu evs k; cbv zeta. subst s. rewrite runG_fresh, iterateG_fresh. apply H.
+Qed.
+
+Lemma pr_restored_transfer : forall s ops, s = IdFresh -> pr_restored_for ops -> pr_restored_forG s ops.
+Proof.
+  intros s ops Hs H a cpu evs k; cbv zeta. subst s. rewrite runG_fresh, iterateG_fresh. apply H.
+Qed.
+
+Lemma mtr_restored_transfer : forall s ops, s = IdFresh -> mtr_restored_for ops -> mtr_restored_forG s ops.
+Proof.
+  intros s ops Hs H a b cpu enf evs k; cbv zeta. subst s. rewrite runG_fresh, iterateG_fresh. apply H.
+Qed.
+
+Lemma mtr_refuted_transfer : forall s ops, s = IdFresh -> mtr_refuted_for ops -> mtr_refuted_forG s ops.
+Proof.
+  intros s ops Hs H enf k; cbv zeta. subst s. rewrite runG_fresh, iterateG_fresh. apply H.
+Qed.
+
+Lemma forgotten_transfer : forall s ops, s = IdFresh -> forgotten_for ops -> forgotten_forG s ops.
+Proof.
+  intros s ops Hs H c p dead id evs Hd Hn. subst s. rewrite runG_fresh, iterG_fresh. apply H; assumption.
+Qed.
+
+Lemma dead_never_reported_transfer : forall s ops sel, s = IdFresh ->
+  dead_never_reported_for ops sel -> dead_never_reported_forG s ops sel.
+Proof.
+  intros s ops sel Hs H c p dead id evs Hd Hn. subst s. rewrite beatsG_fresh. apply H; assumption.
+Qed.
+
+(* the three facts generated from the spawn code *)
+Lemma ids_fresh_gen : mtr_id_src = IdFresh /\ ppr_id_src = IdFresh /\ pr_id_src = IdFresh.
+Proof. repeat split; reflexivity. Qed.
+
+Lemma ppr_restored_genG : ppr_restored_forG ppr_id_src ppr_loop_ops.
+Proof. exact (ppr_restored_transfer _ _ (proj1 (proj2 ids_fresh_gen)) ppr_restored_gen). Qed.
+
+Lemma ppr_any_stateG : forall c p k,
+  let p' := iterate (S k) (iterG ppr_id_src c ppr_loop_ops) p in no_dead p' = true /\ cap c <= nlive p'.
+Proof.
+  intros c p k; cbv zeta. rewrite (proj1 (proj2 ids_fresh_gen)), iterateG_fresh. apply ppr_any_state.
+Qed.
+
+Lemma pr_restored_genG : pr_restored_forG pr_id_src pr_loop_ops.
+Proof. exact (pr_restored_transfer _ _ (proj2 (proj2 ids_fresh_gen)) pr_restored_gen). Qed.
+
+Lemma pr_pickupG : forall c p,
+  let p' := iterG pr_id_src c pr_loop_ops p in
+  nlive p' + queue p' = nlive p + queue p /\
+  nlive p' = nlive p + Nat.min (cap c - nlive p) (queue p).
+Proof. intros c p; cbv zeta. rewrite (proj2 (proj2 ids_fresh_gen)), iterG_fresh. apply pr_pickup. Qed.
+
+Lemma mtr_verdictG :
+  if mtr_loop_prunes then mtr_restored_forG mtr_id_src mtr_loop_ops else mtr_refuted_forG mtr_id_src mtr_loop_ops.
+Proof.
+  pose proof mtr_verdict as H. destruct mtr_loop_prunes.
+  - exact (mtr_restored_transfer _ _ (proj1 ids_fresh_gen) H).
+  - exact (mtr_refuted_transfer _ _ (proj1 ids_fresh_gen) H).
+Qed.
+
+Lemma mtr_partialG : forall c p, no_dead p = true ->
+  let p' := iterG mtr_id_src c mtr_loop_ops p in
+  no_dead p' = true /\ mtr_demand c p' <= nlive p' /\ nlive p <= nlive p'.
+Proof. intros c p H; cbv zeta. rewrite (proj1 ids_fresh_gen), iterG_fresh. apply mtr_partial, H. Qed.
+
+Lemma mtr_forgotten_if_prunes : if mtr_loop_prunes then forgotten_forG mtr_id_src mtr_loop_ops else True.
+Proof.
+  unfold mtr_loop_prunes. destruct (lops_eqb mtr_loop_ops [LPrune; LScaleUp]) eqn:E; [|exact I].
+  apply lops_eqb_eq in E. rewrite E.
+  exact (forgotten_transfer _ _ (proj1 ids_fresh_gen) (forgotten_prune_first [LScaleUp])).
+Qed.
+
+Lemma ppr_forgottenG : forgotten_forG ppr_id_src ppr_loop_ops.
+Proof. exact (forgotten_transfer _ _ (proj1 (proj2 ids_fresh_gen)) ppr_forgotten). Qed.
+
+Lemma pr_forgottenG : forgotten_forG pr_id_src pr_loop_ops.
+Proof. exact (forgotten_transfer _ _ (proj2 (proj2 ids_fresh_gen)) pr_forgotten). Qed.
+
+Lemma heartbeats_genG :
+  base_reports_active_ids = true /\
+  hb_alive_only mtr_hb_sel /\ hb_alive_only ppr_hb_sel /\ hb_alive_only pr_hb_sel /\
+  dead_never_reported_forG mtr_id_src mtr_loop_ops mtr_hb_sel /\
+  dead_never_reported_forG ppr_id_src ppr_loop_ops ppr_hb_sel /\
+  dead_never_reported_forG pr_id_src pr_loop_ops pr_hb_sel.
+Proof.
+  destruct heartbeats_gen as (H0 & H1 & H2 & H3 & H4 & H5 & H6).
+  destruct ids_fresh_gen as (I1 & I2 & I3).
+  repeat split; try assumption.
+  - exact (dead_never_reported_transfer _ _ _ I1 H4).
+  - exact (dead_never_reported_transfer _ _ _ I2 H5).
+  - exact (dead_never_reported_transfer _ _ _ I3 H6).
+Qed.
+
+(* ids of reachable pools were issued by the counter — for EVERY id source and loop body *)
+Lemma snoc_issued : forall p id0 n' q f, ids_issued p -> id0 < n' -> next p <= n' ->
+  ids_issued (mkP (tracked p ++ [mkW id0 true]) n' q f).
+Proof.
+  intros p id0 n' q f Hi H0 Hn id Hin. cbn [tracked next] in *. rewrite ids_app in Hin.
+  apply in_app_or in Hin. destruct Hin as [Hin|Hin].
+  - pose proof (Hi id Hin). lia.
+  - simpl in Hin. destruct Hin as [Hin|[]]. subst id. exact H0.
+Qed.
+
+Lemma spawn_nG_issued : forall s n p, ids_issued p -> Forall (fun id => id < next p) (freed p) ->
+  ids_issued (spawn_nG s n p) /\ Forall (fun id => id < next (spawn_nG s n p)) (freed (spawn_nG s n p))
+  /\ next p <= next (spawn_nG s n p).
+Proof.
+  intros s n; induction n as [|n IH]; intros p Hi Hf; simpl; [repeat split; try assumption; lia|].
+  assert (X : ids_issued (spawn1G s p) /\ Forall (fun id => id < next (spawn1G s p)) (freed (spawn1G s p))
+              /\ next p <= next (spawn1G s p)).
+  { unfold spawn1G. destruct s.
+    - unfold spawn1. cbn [next freed]. repeat split; [apply snoc_issued; [exact Hi|lia|lia] | |lia].
+      eapply Forall_impl; [|exact Hf]. cbn beta. intros a Ha. lia.
+    - destruct (freed p) as [|f rest] eqn:Ef.
+      + unfold spawn1. cbn [next freed]. rewrite Ef. repeat split; [apply snoc_issued; [exact Hi|lia|lia] |constructor|lia].
+      + cbn [next freed]. inversion Hf as [|? ? Hf1 Hf2]; subst.
+        repeat split; [apply snoc_issued; [exact Hi|exact Hf1|lia] |exact Hf2|lia]. }
+  destruct X as (X1 & X2 & X3). destruct (IH (spawn1G s p) X1 X2) as (Y1 & Y2 & Y3).
+  repeat split; try assumption. lia.
+Qed.
+
+Definition issuedG (p : pool) : Prop := ids_issued p /\ Forall (fun id => id < next p) (freed p).
+
+Lemma do_opG_issued : forall s c o p, issuedG p -> issuedG (do_opG s c p o).
+Proof.
+  intros s c o p [Hi Hf]; destruct o; simpl.
+  - split.
+    + intros id Hin. apply Hi. apply live_sub_tracked. exact Hin.
+    + simpl. apply Forall_app. split; [|exact Hf].
+      apply Forall_forall. intros id Hin. apply in_rev in Hin. apply Hi.
+      unfold ids, dead_of in *. apply in_map_iff in Hin. destruct Hin as (w & Hw & Hin).
+      apply filter_In in Hin. apply in_map_iff. exists w. tauto.
+  - unfold spawn_toG. destruct (spawn_nG_issued s (cap c - ntracked p) p Hi Hf) as (A & B & _). split; assumption.
+  - unfold scale_upG. destruct (enforce c).
+    + destruct (spawn_nG_issued s (cap c - ntracked p) p Hi Hf) as (A & B & _). split; assumption.
+    + destruct ((ntracked p <? queue p) && (ntracked p <? cap c)).
+      * destruct (spawn_nG_issued s (Nat.min (queue p - ntracked p) (cap c - ntracked p)) p Hi Hf) as (A & B & _).
+        split; assumption.
+      * split; assumption.
+  - unfold spawn_from_queueG.
+    destruct (spawn_nG_issued s (Nat.min (cap c - ntracked p) (queue p)) p Hi Hf) as (A & B & _).
+    split; [exact A | exact B].
+Qed.
+
+Lemma ids_issued_reachableG : forall s c ops evs, ids_issued (runG s c ops (start c) evs).
+Proof.
+  intros s c ops evs.
+  assert (G : forall evs p, issuedG p -> issuedG (runG s c ops p evs)).
+  { clear evs. intros evs; unfold runG; induction evs as [|e evs IH]; intros p Hp; simpl; [exact Hp|].
+    apply IH. destruct e; simpl.
+    - destruct Hp as [Hi Hf]. split; [|exact Hf]. intros id Hin. rewrite kill_ids in Hin. exact (Hi id Hin).
+    - exact Hp.
+    - exact Hp.
+    - unfold iterG. clear IH. revert p Hp. induction ops as [|o ops IHo]; intros p Hp; simpl; [exact Hp|].
+      apply IHo, do_opG_issued, Hp.
+    - exact Hp. }
+  apply G. unfold start. rewrite <- spawn_nG_fresh.
+  destruct (spawn_nG_issued IdFresh (initial c) (mkP [] 0 0 [])) as (A & B & _).
+  - intros id Hin; destruct Hin.
+  - constructor.
+  - split; assumption.
+Qed.
+
+(* what the id source is there for: with recycled ids the heartbeat half of the property FAILS in the
+   model — pool of 2, worker 0 dies, one iteration forgets it and hands its id to the replacement,
+   the next heartbeat report names id 0 again *)
+Lemma recycled_ids_refuted : ~ dead_never_reported_forG IdRecycled [LPrune; LSpawnTo] HbAlive.
+Proof.
+  intros H.
+  assert (X : In 0 [0]) by (left; reflexivity).
+  assert (Y : 0 < next (start (ppr_cfg 1 2 4))) by (vm_compute; lia).
+  pose proof (H (ppr_cfg 1 2 4) (start (ppr_cfg 1 2 4)) [0] 0 [EIter; EBeat] X Y) as Hf.
+  vm_compute in Hf. inversion Hf as [|? ? Hh _]. apply Hh. right. left. reflexivity.
+Qed.
+
+Lemma recycled_ids_tracked_again : ~ forgotten_forG IdRecycled [LPrune; LSpawnTo].
+Proof.
+  intros H.
+  assert (X : In 0 [0]) by (left; reflexivity).
+  assert (Y : 0 < next (start (ppr_cfg 1 2 4))) by (vm_compute; lia).
+  apply (H (ppr_cfg 1 2 4) (start (ppr_cfg 1 2 4)) [0] 0 [] X Y). vm_compute. right. left. reflexivity.
 Qed.
